@@ -1,3 +1,4 @@
+pub mod list;
 pub mod num;
 pub mod rngs;
 pub mod store;
